@@ -84,7 +84,7 @@ class _Z:
 
 # ---- synthetic (user-defined) zones: "for all zones" is not only the tz database --------------------------------
 
-SYN_OFFSETS = (-18 * 3600, -12 * 3600, -10 * 3600, -3600, 0, 3600, 1800, 12 * 3600, 14 * 3600, 18 * 3600)
+SYN_OFFSETS = (-18 * 3600, -12 * 3600, -(10 * 3600 + 2400), -10 * 3600, -3600, 0, 3600, 1800, 12 * 3600, 14 * 3600, 18 * 3600)
 SYN_TODS = (0, 1800, 6 * 3600, 12 * 3600, 20 * 3600, 86399)          # local time of day (old offset) at which the clocks change
 SYN_TODS_DOUBLE = (0, 6 * 3600, 86399)
 SYN_BASE_DAY = 11109                                                  # 2000-06-01
@@ -97,15 +97,21 @@ def _hm(sec):
     return "%s%02d:%02d" % (sign, sec // 3600, sec // 60 % 60) + (":%02d" % (sec % 60) if sec % 60 else "")
 
 
+def _syn_day(spec):
+    return spec[5] if len(spec) > 5 else SYN_BASE_DAY
+
+
 def syn_desc(spec):
-    _, before, after, tod, double = spec
-    return "%s -> %s at local %s on 2000-06-01%s" % (_hm(before), _hm(after), _hm(tod)[1:], (", back %d days later" % SYN_BACK_AFTER_DAYS) if double else "")
+    _, before, after, tod, double = spec[:5]
+    return "%s -> %s at local %s on %s%s" % (_hm(before), _hm(after), _hm(tod)[1:], zw.fmt_ns(_syn_day(spec) * DAY_NS)[:10],
+                                            (", back %d days later" % SYN_BACK_AFTER_DAYS) if double else "")
 
 
 def syn_class(spec):
-    _, before, after, tod, double = spec
+    _, before, after, tod, double = spec[:5]
     d = after - before
-    return "synthetic:%s%s:%s%s" % ("gap" if d > 0 else "overlap", ">=24h" if abs(d) >= 86400 else "<24h", "at-midnight" if tod == 0 else "not-at-midnight", ":two-transitions" if double else "")
+    return "synthetic:%s%s:%s%s%s" % ("gap" if d > 0 else "overlap", ">=24h" if abs(d) >= 86400 else "<24h", "at-midnight" if tod == 0 else "not-at-midnight",
+                                      ":two-transitions" if double else "", ":whole-day-skip-in-all-calendars" if len(spec) > 5 else "")
 
 
 def make_synthetic(spec):
@@ -113,8 +119,8 @@ def make_synthetic(spec):
     through the public base-class constructor and the public ZoneInterval constructor"""
     from pyoda_time import DateTimeZone, Offset
     from pyoda_time.time_zones import ZoneInterval
-    _, before, after, tod, double = spec
-    T = SYN_BASE_DAY * DAY_NS + tod * NS - before * NS
+    _, before, after, tod, double = spec[:5]
+    T = _syn_day(spec) * DAY_NS + tod * NS - before * NS
     if not double:
         from pyoda_time.testing.time_zones import SingleTransitionDateTimeZone
         return SingleTransitionDateTimeZone(zw.mk_instant(T), Offset.from_seconds(before), Offset.from_seconds(after), "Syn")
@@ -141,8 +147,37 @@ def make_synthetic(spec):
                       ZoneInterval(name="A2", start=zw.mk_instant(T2), end=None, wall_offset=ob, savings=zero)])
 
 
-def synthetic_specs():
+def all_calendars():
+    from pyoda_time import CalendarSystem as CS
     out = []
+    for cid in sorted(CS.ids):
+        try:
+            out.append(CS.for_id(cid))
+        except Exception:  # noqa: BLE001
+            pass
+    return out
+
+
+def skip_day_days():
+    """days (since 1970-01-01) D for the whole-day-skip zones (-12 -> +12 at local midnight of D, so that D does not exist): the last day of every
+    month of a leap and a common Hebrew year in the SCRIPTURAL month numbering (which is not monotonic in time), of ISO 2000, of an Islamic,
+    a Persian and a Badi year - taken from the library's own calendars (only to choose where to look)"""
+    from pyoda_time import CalendarSystem as CS, LocalDate as LD
+    days = set()
+    for cal_name, years in (("hebrew_scriptural", (5760, 5761)), ("iso", (2000,)), ("islamic_bcl", (1421,)), ("persian_simple", (1379,)), ("badi", (157,))):
+        try:
+            cal = getattr(CS, cal_name)
+            for y in years:
+                for m in range(1, cal.get_months_in_year(y) + 1):
+                    dd = LD(y, m, cal.get_days_in_month(y, m), cal).with_calendar(CS.iso)
+                    days.add(tzrules.days_from_civil(dd.year, dd.month, dd.day))
+        except Exception:  # noqa: BLE001
+            continue
+    return sorted(days)
+
+
+def synthetic_specs():
+    out = [("syn", -12 * 3600, 12 * 3600, 0, False, d) for d in skip_day_days()]
     for before in SYN_OFFSETS:
         for after in SYN_OFFSETS:
             if after == before:
@@ -314,13 +349,23 @@ def check_local(acc, zc, z, idx, L, full, cals=(), zdt_offsets=True, lite=False)
                          zw.fmt_ns(L)[:-1], cnt, zw.fmt_ns(gi), r.offset.seconds, zw.fmt_ns(want), want_off), local_ns=L, expected=want, got=gi)
             elif cnt == 0 and zw.ldt_local_ns(r.local_date_time) != L + (after[3] - before[3]) * NS:
                 zc.v("lenient/skipped-local", "lenient result for skipped local %s is not that value shifted forward by the gap" % zw.fmt_ns(L)[:-1], local_ns=L)
+            elif cnt == 0:
+                # the result's local value must be a proper local date-time: the one its own instant renders as in the zone
+                shown = r.local_date_time
+                rendered = r.to_instant().in_zone(z).local_date_time
+                model = zw.ldt_from_local_ns(L + (after[3] - before[3]) * NS)
+                acc.count(evaluations=1, transitions=1)
+                if not (shown == rendered == model) or shown.hour > 23:
+                    zc.v("lenient/skipped-local-value", lambda: "lenient result for skipped local %s shows local value %s (hour %d); its own instant %s renders in the zone as %s" % (
+                        zw.fmt_ns(L)[:-1], shown, shown.hour, zw.fmt_ns(gi), rendered), local_ns=L)
         if full:
             # the same through LocalDateTime / resolve_local / single()
             acc.count(evaluations=4, transitions=4)
             r2 = ldt.in_zone_leniently(z)
             r3 = z.resolve_local(ldt, Resolvers.lenient_resolver)
             r4 = ldt.in_zone(z, Resolvers.lenient_resolver)
-            if not (zdt_instant_ns(r2) == zdt_instant_ns(r3) == zdt_instant_ns(r4) == zdt_instant_ns(r)):
+            if not (zdt_instant_ns(r2) == zdt_instant_ns(r3) == zdt_instant_ns(r4) == zdt_instant_ns(r)) or not (
+                    r2.local_date_time == r3.local_date_time == r4.local_date_time == r.local_date_time):
                 zc.v("lenient/entry-points", "in_zone_leniently / resolve_local / in_zone disagree with at_leniently for local %s" % zw.fmt_ns(L)[:-1], local_ns=L)
             for f, nm in ((lambda: ldt.in_zone_strictly(z), "in_zone_strictly"), (m.single, "single")):
                 try:
@@ -400,7 +445,13 @@ def _edge(acc, zc, z, L):
         acc.lib_exception("C05/edge/%s" % zc.zid, ex, {"zone": zc.zid, "local_ns": L, "synthetic": zc.spec and list(zc.spec)})
 
 
-def check_start_of_day(acc, zc, z, idx, day, cals=()):
+def _sod(d0, cal, route):
+    return "%s%s%s" % (zw.fmt_ns(d0)[:10], "" if cal is None else " as a %s date" % cal.id, "" if route == "zone" else ", via LocalDate.at_start_of_day_in_zone")
+
+
+def check_start_of_day(acc, zc, z, idx, day, cals=(), routes=("zone",)):
+    """at_start_of_day for one local date (days since 1970-01-01), in ISO and in each calendar of `cals`, through DateTimeZone.at_start_of_day
+    and (routes) LocalDate.at_start_of_day_in_zone: the earliest instant carrying that local date, or a raise when there is none"""
     d0 = day * DAY_NS
     if not (zw.LOCAL_MIN_NS <= d0 and d0 + DAY_NS - 1 <= zw.LOCAL_MAX_NS):
         return
@@ -412,32 +463,35 @@ def check_start_of_day(acc, zc, z, idx, day, cals=()):
         return
     date = zw.local_date_from_days(day)
     for cal in (None,) + tuple(cals):
-        acc.count(states=1, evaluations=1, transitions=1)
         try:
             d = date if cal is None else date.with_calendar(cal)
         except Exception:  # noqa: BLE001
+            acc.outcome("calendar-out-of-range:" + cal.id)
             continue
-        try:
-            r = z.at_start_of_day(d)
-        except Exception as ex:  # noqa: BLE001
-            if exc_origin(ex) == "harness":
-                raise
-            acc.outcome("start-of-day:raises-" + type(ex).__name__)
-            if exp is not None:
-                zc.v("start-of-day/raises", "at_start_of_day(%s) raised %s; earliest instant with that local date is %s" % (
-                    zw.fmt_ns(d0)[:10], type(ex).__name__, zw.fmt_ns(exp[0])), day=day)
-            elif not isinstance(ex, SkippedTimeError):
-                acc.outcome("start-of-day:skipped-day-raises-" + type(ex).__name__)
-            continue
-        gi = zdt_instant_ns(r)
-        acc.outcome("start-of-day:" + ("midnight" if exp and gi + exp[1] * NS == d0 else "later-than-midnight"))
-        if exp is None:
-            zc.v("start-of-day/no-raise", "at_start_of_day(%s) returned %s although no instant has that local date" % (zw.fmt_ns(d0)[:10], zw.fmt_ns(gi)), day=day)
-        elif gi != exp[0] or r.offset.seconds != exp[1]:
-            zc.v("start-of-day/instant", "at_start_of_day(%s) gives %s (offset %+ds), the earliest instant with that local date is %s (offset %+ds)" % (
-                zw.fmt_ns(d0)[:10], zw.fmt_ns(gi), r.offset.seconds, zw.fmt_ns(exp[0]), exp[1]), day=day, expected=exp[0], got=gi)
-        elif r.date != d or (cal is not None and r.calendar.id != cal.id):
-            zc.v("start-of-day/date", "at_start_of_day(%s) returns a value with another date or calendar" % zw.fmt_ns(d0)[:10], day=day)
+        for route in routes:
+            acc.count(states=1, evaluations=1, transitions=1)
+            try:
+                r = z.at_start_of_day(d) if route == "zone" else d.at_start_of_day_in_zone(z)
+            except Exception as ex:  # noqa: BLE001
+                if exc_origin(ex) == "harness":
+                    raise
+                acc.outcome("start-of-day:raises-" + type(ex).__name__)
+                if exp is not None:
+                    zc.v("start-of-day/raises", "at_start_of_day(%s) raised %s; earliest instant with that local date is %s" % (
+                        _sod(d0, cal, route), type(ex).__name__, zw.fmt_ns(exp[0])), day=day, calendar=cal and cal.id)
+                elif not isinstance(ex, SkippedTimeError):
+                    acc.outcome("start-of-day:skipped-day-raises-" + type(ex).__name__)
+                continue
+            gi = zdt_instant_ns(r)
+            acc.outcome("start-of-day:" + ("midnight" if exp and gi + exp[1] * NS == d0 else "later-than-midnight"))
+            if exp is None:
+                zc.v("start-of-day/no-raise", "at_start_of_day(%s) returned %s although no instant has that local date" % (_sod(d0, cal, route), zw.fmt_ns(gi)),
+                     day=day, calendar=cal and cal.id)
+            elif gi != exp[0] or r.offset.seconds != exp[1]:
+                zc.v("start-of-day/instant", "at_start_of_day(%s) gives %s (offset %+ds), the earliest instant with that local date is %s (offset %+ds)" % (
+                    _sod(d0, cal, route), zw.fmt_ns(gi), r.offset.seconds, zw.fmt_ns(exp[0]), exp[1]), day=day, expected=exp[0], got=gi, calendar=cal and cal.id)
+            elif r.date != d or (cal is not None and r.calendar.id != cal.id):
+                zc.v("start-of-day/date", "at_start_of_day(%s) returns a value with another date or calendar" % _sod(d0, cal, route), day=day, calendar=cal and cal.id)
 
 
 def check_round_trip(acc, zc, z, t, k, cals):
@@ -586,7 +640,7 @@ def _sweep(acc, zc, z, L, idx, lo, hi, lite, cals):
             day0 = T // DAY_NS
             dloc = (T + o2 * NS) // DAY_NS
             for d in range(day0 - 1, day0 + 3):
-                check_start_of_day(acc, zc, z, idx, d, cals if d == dloc else ())
+                check_start_of_day(acc, zc, z, idx, d, cals if d == dloc else (), routes=("zone", "date") if (d == dloc or zc.spec is not None) else ("zone",))
     if lo == MIN_NS:
         idx_all = idx
         for v in (zw.LOCAL_MIN_NS, zw.LOCAL_MIN_NS + 1, zw.LOCAL_MIN_NS + 18 * H, zw.LOCAL_MIN_NS + 18 * H + 1):
@@ -655,6 +709,22 @@ def _examine(acc, zc, zone_ref, windows, refzone=None):
             acc.outcome(zid)
         idx = zw.Index(L)
         ntr += _sweep(acc, zc, z, L, idx, lo, hi, lite, cals)
+        if zc.spec is not None and zc.spec[0] == "syn":
+            for k in range(1, len(L)):
+                T, o1, o2 = L[k][0], L[k - 1][3], L[k][3]
+                if o2 - o1 >= 86400:
+                    # a gap of a day or more: every skipped local value on a 10-minute grid, through all resolvers and entry points
+                    v = T + o1 * NS
+                    while v < T + o2 * NS:
+                        check_local(acc, zc, z, idx, v, full=True, cals=(), zdt_offsets=False)
+                        v += 600 * NS
+                    acc.outcome("gap>=24h swept at 10-minute steps")
+            if len(zc.spec) > 5:
+                # the date in every calendar the library offers, through both entry points
+                allc = all_calendars()
+                for d in range(zc.spec[5] - 1, zc.spec[5] + 3):
+                    check_start_of_day(acc, zc, z, idx, d, allc, routes=("zone", "date"))
+                acc.outcome("whole-day skip examined in %d calendars" % len(allc))
     acc.count(nontrivial=ntr)
     if zid in ("Pacific/Apia", "Australia/Lord_Howe", "America/St_Johns", "Pacific/Kwajalein") and windows[0][0] == MIN_NS:
         acc.sample({"zone": zid, "transitions_examined": ntr, "windows": [(zw.fmt_ns(a), zw.fmt_ns(b), "reduced local set" if c else "full local set") for a, b, c in windows]})
